@@ -19,18 +19,20 @@
 (* evaluated at every event (step clauses, cheap state clauses) or at the  *)
 (* audit events (complete state clauses).                                  *)
 (***************************************************************************)
-EXTENDS PyView, Json, IOUtils
+EXTENDS PyView, BookImpl, Json, IOUtils
 
 Rec == ndJsonDeserialize(IOEnv.TRACE)
 
-VARIABLES b,    \* specification book
+VARIABLES b,    \* specification book (reference engine, BookOps.tla)
+          ib,   \* implementation-shaped book (BookImpl.tla) driven in lock-step
           l,    \* index of the next event
           bad   \* "" or the name of the first failed clause (kept so that it can be reported)
 
-tvars == <<b, l, bad>>
+tvars == <<b, ib, l, bad>>
 
 TInit ==
   /\ b = NewBook(0, 1, TRUE, 1)
+  /\ ib = NewImpl(0, 1, TRUE, 1)
   /\ l = 1
   /\ bad = ""
 
@@ -105,6 +107,15 @@ StepClauses(old, new, lbl) ==
      <<"C02_NotCrossed", C02_NotCrossed(new)>>,
      <<"C03_Counter", C03_Counter(new)>> >>
 
+\* the implementation-shaped model, bound to the code through the keys the JSON snapshot shows
+ChangedKeys(oi, ni) == {i \in IIds(ni) : i >= Len(oi.entries) \/ E(ni, i).key # E(oi, i).key}
+ImplClauses(oi, ni, new, e) ==
+  << <<"impl_refines_reference", Matches(ni, new)>>,
+     <<"impl_changed_keys", ("dk" \in DOMAIN e) => ChangedKeys(oi, ni) = {e.dk[k][1] : k \in 1..Len(e.dk)}>>,
+     <<"impl_keys", ("dk" \in DOMAIN e) => \A k \in 1..Len(e.dk) :
+                       e.dk[k][1] \in IIds(ni) /\ E(ni, e.dk[k][1]).key = e.dk[k][2]>>,
+     <<"impl_structures_consistent", e.audit => ImplConsistent(ni)>> >>
+
 AuditClauses(bk) ==
   << <<"C01_QueueSorted", C01_QueueSorted(bk)>>,
      <<"C02_ViewsAgree", C02_ViewsAgree(bk)>>,
@@ -122,9 +133,12 @@ Reset ==
   /\ LET e == Rec[l]  nb == NewBook(e.t0, e.tick, e.trading, e.levels) IN
      /\ FirstFalse(DeltaClauses(nb, nb, e)) = ""
      /\ b' = nb
+     /\ ib' = NewImpl(e.t0, e.tick, e.trading, e.levels)
   /\ l' = l + 1
   /\ bad' = bad
 
+\* (F3, known finding: the code accepts an off-grid modify price and BookImpl models the code; traces
+\* containing such a request stop at the reference mismatch before the implementation clauses.)
 Call ==
   /\ l <= Len(Rec)
   /\ Rec[l].op # "reset"
@@ -133,20 +147,24 @@ Call ==
          lbl == LabelOf(e)
          old == PreOf(b, lbl)
          new == ApplyLbl(b, lbl)
+         ni  == IApply(ib, lbl)
          d   == FirstFalse(DeltaClauses(b, new, e))
      IN
-     IF d # "" THEN
-       \* not a behaviour of the specification: stop here and say why
-       /\ bad' = "MISMATCH:" \o d
-       /\ b' = new
-       /\ l' = l
-     ELSE
-       LET c == FirstFalse(StepClauses(old, new, lbl))
-           a == IF e.audit THEN FirstFalse(AuditClauses(new)) ELSE ""
-       IN
-       /\ b' = new
-       /\ bad' = IF c # "" THEN "CLAUSE:" \o c ELSE IF a # "" THEN "CLAUSE:" \o a ELSE ""
-       /\ l' = IF bad' = "" THEN l + 1 ELSE l
+     /\ ib' = ni
+     /\ IF d # "" THEN
+          \* not a behaviour of the specification: stop here and say why
+          /\ bad' = "MISMATCH:" \o d
+          /\ b' = new
+          /\ l' = l
+        ELSE
+          LET c == FirstFalse(StepClauses(old, new, lbl))
+              a == IF e.audit THEN FirstFalse(AuditClauses(new)) ELSE ""
+              i == FirstFalse(ImplClauses(ib, ni, new, e))
+          IN
+          /\ b' = new
+          /\ bad' = IF c # "" THEN "CLAUSE:" \o c ELSE IF a # "" THEN "CLAUSE:" \o a
+                     ELSE IF i # "" THEN "IMPL:" \o i ELSE ""
+          /\ l' = IF bad' = "" THEN l + 1 ELSE l
 
 TNext == Reset \/ Call
 TSpec == TInit /\ [][TNext]_tvars
